@@ -159,3 +159,15 @@ claim("C12",
       "objects (also when bound to another owner), and that the mutation is invisible through the other object.",
       TB, "symbolic execution (CrossHair+z3) of copy routes with symbolic contents followed by a symbolic mutation; identity census and snapshot comparison",
       "DESIGN.md 3/C12")
+
+claim("C11",
+      "Bounded symbolic execution of the container operations of TreeList, DataSet, CharacterMatrix and Tree that move members between "
+      "namespaces: source label sets (equal, case variants, overlapping, disjoint), destination contents and case sensitivity, import "
+      "strategy, positions and memo contents are symbolic choices; one operation per shard (append/insert/extend/+=/+/item and slice "
+      "assignment/read/new_tree/constructor/migrate with and without a caller memo; DataSet add+unify with and without a target, unify "
+      "after a component was migrated elsewhere, attach+new_*, reads into an attached namespace; matrix migrate/reconstruct/new_sequence), "
+      "optionally followed by a removal. Oracle: every member refers to the container's namespace object, every node/sequence taxon is a "
+      "member, and after label-based migration equal labels (under the destination's case rule) sit on one taxon, different labels on "
+      "different taxa, with no label present twice.",
+      TB, "symbolic-choice driven (CrossHair+z3) execution of container operations with a namespace-closure and label-unification oracle",
+      "DESIGN.md 3/C11")
